@@ -4,8 +4,12 @@ from .core import ob, prop
 GR = dict(unit="mfgr_u.c", file="hdf/src/mfgr.c", cex_unwind=56, objbits=10,
           trusted=["DFKNTsize (returns the component size chosen by the harness)"])
 BOUND = "xdim,ydim in 1..3, ncomp in 1..3, component size in {1,2}; all 9 (in,out) interlace pairs"
-ob("GRIil_convert_b", "C09", entry="h_GRIil_convert", enforce="GRIil_convert", mode="bounded", bound=BOUND,
-   unwind=4, **GR)
+ILS = {"P": "MFGR_INTERLACE_PIXEL", "L": "MFGR_INTERLACE_LINE", "C": "MFGR_INTERLACE_COMPONENT"}
+for a in "PLC":
+    for b in "PLC":
+        ob(f"GRIil_convert_{a}{b}_b", "C09", entry="h_GRIil_convert", enforce="GRIil_convert", mode="bounded",
+           bound=f"{ILS[a]} -> {ILS[b]}; xdim,ydim in 1..3, ncomp in 1..3, component size in {{1,2}}",
+           defines=[f"GR_INIL={ILS[a]}", f"GR_OUTIL={ILS[b]}"], unwind=4, **GR)
 ob("il_roundtrip_b", "C09", entry="h_il_roundtrip", mode="bounded", bound=BOUND, unwind=4, **GR)
 
 prop("C09",
